@@ -890,6 +890,8 @@ pub struct Alphabet {
     pub chardata_full: bool,
     /// only `append_child(attached element, detached node)` instead of the full structural product
     pub attach_only: bool,
+    /// further names for set_attribute / remove_attribute only (namespace declarations)
+    pub attr_names: &'static [&'static str],
 }
 
 pub fn count_creations(h: &[Op]) -> usize {
@@ -986,7 +988,7 @@ impl Live {
             let elems: Vec<usize> = (0..n).filter(|h| !self.is_foreign[*h] && kind_of(&self.pool[*h]) == Kind::Element).collect();
             let attrs: Vec<usize> = (0..n).filter(|h| kind_of(&self.pool[*h]) == Kind::Attr).collect();
             for &e in &elems {
-                for name in a.names {
+                for name in a.names.iter().chain(a.attr_names.iter()) {
                     for v in a.values {
                         ops.push(Op::SetAttribute(e, name.to_string(), v.to_string()));
                     }
@@ -1084,6 +1086,9 @@ pub struct DomBfs {
     /// emit successors (false at the last depth)
     pub expand: bool,
     pub order_queries: &'static [&'static str],
+    /// C14: queries evaluated BEFORE and after every transition with one long-lived evaluation context: what they select
+    /// after the edit must not depend on their having been evaluated before it
+    pub warm_queries: &'static [&'static str],
 }
 
 pub fn parse_frontier(input: &[String]) -> Vec<(usize, Vec<Op>)> {
@@ -1275,6 +1280,26 @@ impl Space for DomBfs {
         self.case_text(*doc, h, None)
     }
     fn run(&self, idx: u64, sink: &mut Sink) {
+        // a panic of the implementation outside a guarded call (while a state is observed: order keys, navigation,
+        // serialization) is a finding about the state, not a failure of the harness
+        if let Err(m) = guard(|| self.run_guarded(idx, &mut *sink)) {
+            if !m.contains("/repo/") {
+                panic!("{}", m);
+            }
+            let (doc, history) = &self.frontier[idx as usize];
+            sink.finding(Finding {
+                sig: format!("panic-while-observing/{}", panic_site(&m)),
+                what: "an accessor of the implementation panicked while the states reached from this history were observed".into(),
+                case: self.case_text(*doc, history, None),
+                expected: "every accessor returns a value for every reachable state".into(),
+                observed: m,
+            });
+        }
+    }
+}
+
+impl DomBfs {
+    fn run_guarded(&self, idx: u64, sink: &mut Sink) {
         let (doc, history) = &self.frontier[idx as usize];
         let mut live = match self.replay(*doc, history) {
             Some(l) => l,
@@ -1476,6 +1501,31 @@ impl Space for DomBfs {
                         expected: f.2,
                         observed: f.3,
                     });
+                }
+            }
+            if self.monitors.order && !panicked && rep.changed && !self.warm_queries.is_empty() {
+                // the same transition from the same state, but on a document that has been queried before the edit, with
+                // one evaluation context kept across the edit
+                if let Some(mut lw) = self.replay(*doc, history) {
+                    let mut kept = crate::checks::c14::context();
+                    for q in self.warm_queries {
+                        let _ = guard(|| crate::checks::c14::query_positions(&lw.doc, q, &mut kept));
+                    }
+                    let _ = lw.step(&op);
+                    for q in self.warm_queries {
+                        sink.count("validated", 1);
+                        let warm = guard(|| crate::checks::c14::query_positions(&lw.doc, q, &mut kept)).map(|r| r.map(|x| x.0));
+                        let cold = guard(|| crate::checks::c14::query_positions(&live.doc, q, &mut crate::checks::c14::context())).map(|r| r.map(|x| x.0));
+                        if warm != cold {
+                            sink.finding(Finding {
+                                sig: format!("query-depends-on-earlier-queries/{}/after:{}/{}", q, op.method(), feats),
+                                what: format!("query {} after the edit answers differently when queries were evaluated before the edit (same evaluation context kept)", q),
+                                case: self.case_text(*doc, history, Some(&op)),
+                                expected: format!("{:?}  (no query before the edit, fresh context)", cold),
+                                observed: format!("{:?}", warm),
+                            });
+                        }
+                    }
                 }
             }
             if self.expand && rep.changed && !panicked && !broken {
